@@ -531,13 +531,44 @@ def job_sequences(col: Collector, seed: int, tier: str, shard: int, n: int) -> N
         col.extra["same_named_model_groups"] = [[t for t in g] for g in same_named_groups()]
 
 
-JOBS = {"models": job_models, "serialisers": job_serialisers, "sequences": job_sequences}
+def job_open_enums(col: Collector, seed: int, tier: str) -> None:
+    """every field typed "one of these words, or any string": each known word and each other spelling of it, on an
+    otherwise minimal object, both backends"""
+    import typing
+
+    from ..modelgen import _SPELLINGS, deterministic_value
+
+    n = 0
+    for t, cls in sorted(models().items()):
+        for f in fields_of(cls):
+            ann = f["annotation"]
+            if typing.get_origin(ann) is not typing.Union:
+                continue
+            arms = [a for a in typing.get_args(ann) if a is not type(None)]
+            lits = [v for a in arms if typing.get_origin(a) is typing.Literal for v in typing.get_args(a) if isinstance(v, str)]
+            if not lits or str not in arms:
+                continue
+            try:
+                base = {ff["wire"]: deterministic_value(ff["annotation"], cls, ff["name"], 2) for ff in fields_of(cls) if ff["required"]}
+            except TypeError:
+                continue
+            for word in sorted(set(lits) | {fn(v) for v in lits for fn in _SPELLINGS} | {"", "x"}):
+                for backend in ("pydantic", "fallback"):
+                    case = {"target": t, "data": dict(base, **{f["wire"]: word}), "backend": backend}
+                    o = check(case)
+                    o.nontrivial = True
+                    col.record(case, o)
+                    n += 1
+    col.exhaustive_parts.append(f"open enumerations: every known word and 4 other spellings of it for every such field ({n} objects)")
+
+
+JOBS = {"models": job_models, "serialisers": job_serialisers, "sequences": job_sequences, "open_enums": job_open_enums}
 
 
 def jobs(tier: str):
     if tier == "quick":
-        return [("models", {"shard": s, "nshards": 8, "n": 60}) for s in range(8)] + [("serialisers", {"shard": s, "nshards": 4, "n": 120}) for s in range(4)] + [("sequences", {"shard": s, "n": 10}) for s in range(4)]
-    return [("models", {"shard": s, "nshards": 8, "n": 1500}) for s in range(8)] + [("serialisers", {"shard": s, "nshards": 4, "n": 2500}) for s in range(4)] + [("sequences", {"shard": s, "n": 300}) for s in range(4)]
+        return [("models", {"shard": s, "nshards": 8, "n": 60}) for s in range(8)] + [("serialisers", {"shard": s, "nshards": 4, "n": 120}) for s in range(4)] + [("sequences", {"shard": s, "n": 10}) for s in range(4)] + [("open_enums", {})]
+    return [("models", {"shard": s, "nshards": 8, "n": 1500}) for s in range(8)] + [("serialisers", {"shard": s, "nshards": 4, "n": 2500}) for s in range(4)] + [("sequences", {"shard": s, "n": 300}) for s in range(4)] + [("open_enums", {})]
 
 
 def shrink(signature: str, seed: int):
